@@ -40,6 +40,7 @@ struct OpState {                            // per wrapped call (per thread)
     std::vector<char *> argv_c, envp_c;
     char **environ_ptr = nullptr;
     jmp_buf exec_jmp; bool jmp_armed = false;
+    bool after_exec = false;                // the recorder has returned to the library
 };
 extern __thread OpState *t_op;
 
